@@ -1,8 +1,10 @@
 (* C03 - layout does not change meaning: indentation scale, tabs, blank lines, comments.
    Statements only; proofs by `exact`.  W0 / lexer_tables are the weights and tables of the CURRENT source. *)
-From Coq Require Import List NArith Bool.
+From Coq Require Import String List NArith Bool.
 Import ListNotations.
 Require Import Verif.Front.Indent Verif.Front.IndentProps Verif.Front.Lines Verif.Front.LinesProps Verif.Front.Tables Verif.Gen.LexerTables.
+Require Import Verif.Front.DocStr Verif.Front.DocStrProps Verif.Front.DocTables Verif.Gen.ListenerDoc.
+Require Import Verif.Front.LexState Verif.Front.LexStateProps Verif.Front.RunState Verif.Front.StateTables Verif.Gen.LexerState.
 Local Open Scope N_scope.
 
 (* ---- the synthesis loop is total (shared with C01): never pops an empty stack, ends within height+1 rounds ---- *)
@@ -73,3 +75,122 @@ Print Assumptions C03_bypass_covers_layout_tokens.
 Theorem C03_tab_weight : w_tab W0 = 4 * w_sp W0 /\ w_sp W0 = 1.
 Proof. exact (conj tab_is_four_spaces space_counts). Qed.
 Print Assumptions C03_tab_weight.
+
+(* ---- layout inside multi-line constructs: what the listener does with runs of `| text` lines (deepen round 3) ---- *)
+
+(* two event sequences that differ only in token positions: same Docstring, statements, annotation values, up to
+   the recorded positions *)
+Theorem C03_doc_lines_ignore_positions : forall rest evs evs',
+  map ev_noline evs = map ev_noline evs' -> out_noline (body rest evs) = out_noline (body rest evs').
+Proof. exact body_ignores_positions. Qed.
+Print Assumptions C03_doc_lines_ignore_positions.
+
+(* n consecutive `| text` lines on ANY lines: one statement "| t1 ... tn", located at the first *)
+Theorem C03_doc_run_one_statement : forall rest s f r ss t ln ts,
+  scopes s = f :: r -> frame_stmts f = Some ss -> to_statements rest f -> not_pipe_action (last_stmt f) ->
+  lrun rest s (doc_lines ((t, ln) :: ts)) =
+  LDone {| scopes := set_stmts f (ss ++ [SAct ("|" ++ joined ((t, ln) :: ts)) ln]) :: r;
+           pending := false; anno := anno s; annos := annos s |}.
+Proof. exact doc_run_one_statement. Qed.
+Print Assumptions C03_doc_run_one_statement.
+
+(* REST method without statements: the lines make up the Docstring *)
+Theorem C03_doc_run_docstring : forall ts s d r, scopes s = FEnd d [] :: r -> pending s = false ->
+  lrun true s (doc_lines ts) = LDone (with_scopes s (FEnd (joined_doc d ts) [] :: r)).
+Proof. exact doc_run_docstring. Qed.
+Print Assumptions C03_doc_run_docstring.
+
+(* the run ends exactly where another statement stands between the lines in the default channel *)
+Theorem C03_text_ends_doc_run : forall rest s f r ss str l2 t ln, scope_ok rest f = true ->
+  scopes s = f :: r -> frame_stmts f = Some ss -> starts_with_pipe str = false ->
+  lrun rest s [EText str l2; EDocStmt ln; EDoc t] =
+  LDone {| scopes := set_stmts f (ss ++ [SAct str l2; SAct ("| " ++ strip1 t) ln]) :: r;
+           pending := false; anno := anno s; annos := annos s |}.
+Proof. exact text_ends_run. Qed.
+Print Assumptions C03_text_ends_doc_run.
+
+(* obligations against the source: EnterText_stmt / EnterDoc_string / ExitAnnotation_value and the scope helpers
+   are, statement by statement, what Front/DocStr.v transliterates, and see positions through getSrcCtx / lastEnd only *)
+Theorem C03_listener_doc_code :
+  ld_shapes = expected_shapes /\
+  ld_position_reads = [("EnterText_stmt", "s.getSrcCtx(ctx.BaseParserRuleContext)"); ("EnterText_stmt", "s.lastEnd");
+                       ("EnterText_stmt", "s.getSrcCtx(ctx.BaseParserRuleContext)"); ("popScope", "s.lastEnd");
+                       ("popScope", "s.lastEnd")]%string.
+Proof. exact (conj listener_doc_shapes listener_doc_position_reads). Qed.
+Print Assumptions C03_listener_doc_code.
+
+Theorem C03_listener_statement_rules : map fst (filter adds_statement ld_scope_ops) =
+  ["EnterCall_stmt"; "EnterCollector_action_stmt"; "EnterCollector_call_stmt"; "EnterCollector_http_stmt";
+   "EnterCollector_pubsub_call"; "EnterElse_stmt"; "EnterFor_stmt"; "EnterGroup_stmt"; "EnterIf_stmt";
+   "EnterOne_of_stmt"; "EnterRet_stmt"; "EnterText_stmt"]%string.
+Proof. exact listener_statement_adders. Qed.
+Print Assumptions C03_listener_statement_rules.
+
+(* ---- the WHOLE hand-written lexer state, all modes (deepen round 3) ---- *)
+
+(* the full model's base component is Front/Indent.run: everything above holds for it *)
+Theorem C03_full_state_projects : forall F rs s,
+  res_map (fun p => (base (fst (fst p)), snd (fst p))) (frun F s rs) = run (f_base F) (base s) rs.
+Proof. exact frun_base. Qed.
+Print Assumptions C03_full_state_projects.
+
+(* no action and no predicate reads the line counter *)
+Theorem C03_linenum_feeds_nothing : forall F s s' r, fs_noline s' = fs_noline s ->
+  res_map nl3 (fstep F s' r) = res_map nl3 (fstep F s r).
+Proof. exact no_op_reads_linenum. Qed.
+Print Assumptions C03_linenum_feeds_nothing.
+
+(* blank lines / whole-line comments at any set of line boundaries: every other token, hidden ones included, is matched
+   under the same value of every predicate atom and makes the same mode switches; same default channel *)
+Theorem C03_blank_comment_same_predicates : forall F rs rs', finserted F (finit F) rs rs' ->
+  res_map (strip F) (ftrace F (finit F) rs') = res_map (strip F) (ftrace F (finit F) rs) /\
+  res_map (filter out_vis) (fouts F (finit F) rs') = res_map (filter out_vis) (fouts F (finit F) rs).
+Proof. exact finserted_same_predicates. Qed.
+Print Assumptions C03_blank_comment_same_predicates.
+
+Theorem C03_full_boundary_after_line_end : forall F s r, is_feol F r = true -> at_fboundary (fnext F s r) = true.
+Proof. exact fboundary_after_eol. Qed.
+Print Assumptions C03_full_boundary_after_line_end.
+
+(* re-indentation: PARTIAL - provided no line is indented by exactly one column (predicate `spaces > 1`) *)
+Theorem C03_scale_same_predicates_partial : forall F k rs, 0 < k -> Forall (fun r => width r <> 1) rs ->
+  res_map (map tr_noscale) (ftrace F (finit F) (scale_lead (f_base F) k (init (f_base F)) rs)) =
+  res_map (map tr_noscale) (ftrace F (finit F) rs).
+Proof. exact scale_same_predicates. Qed.
+Print Assumptions C03_scale_same_predicates_partial.
+
+Theorem C03_scale_same_predicates_refuted : exists k rs, 0 < k /\
+  res_map (map tr_noscale) (ftrace F0 (finit F0) (scale_lead lexer_tables k (init lexer_tables) rs)) <>
+  res_map (map tr_noscale) (ftrace F0 (finit F0) rs).
+Proof. exact scale_predicates_refuted. Qed.
+Print Assumptions C03_scale_same_predicates_refuted.
+
+(* trailing blanks / a comment after the last token of a default-mode line: the line then ends in another token;
+   the state afterwards is the same (current source) *)
+Theorem C03_line_end_spelling : forall s t1 t2 h1 h2 w1 w2, In t1 default_line_end_types -> In t2 default_line_end_types ->
+  exists s1 m, fstep F0 s (mk t1 h1 w1) = Done (s1, [Tok (mk t1 h1 w1)], m) /\ fstep F0 s (mk t2 h2 w2) = Done (s1, [Tok (mk t2 h2 w2)], m).
+Proof. exact current_eol_swap. Qed.
+Print Assumptions C03_line_end_spelling.
+
+(* obligations against the source *)
+Theorem C03_state_tables_classified :
+  ls_unknown = [] /\ ls_other_writers = [] /\ ls_keyword_reads = ["noMoreImports"%string].
+Proof. exact state_translator_classified_everything. Qed.
+Print Assumptions C03_state_tables_classified.
+
+Theorem C03_state_actions_agree_with_base_tables :
+  flat_map (fun p => match base_action (snd p) with Some a => [(fst p, a)] | None => [] end) ls_ops = action_table.
+Proof. exact base_actions_agree. Qed.
+Print Assumptions C03_state_actions_agree_with_base_tables.
+
+Theorem C03_layout_tokens_touch_nothing_else : forall s t w,
+  (In t view_layout_types -> is_flayout F0 s (mk t true w) = true) /\
+  (view (ex s) = false -> block (ex s) = 0 -> In t default_layout_types -> is_flayout F0 s (mk t true w) = true).
+Proof. exact (fun s t w => conj (view_layout_tokens_are_flayout s t w) (default_layout_tokens_are_flayout s t w)). Qed.
+Print Assumptions C03_layout_tokens_touch_nothing_else.
+
+Theorem C03_default_line_ends_agree :
+  same_ext_ops F0 lst_NEWLINE lst_EMPTY_LINE /\ same_ext_ops F0 lst_NEWLINE lst_INDENTED_COMMENT /\
+  same_ext_ops F0 lst_NEWLINE lst_EMPTY_COMMENT.
+Proof. exact default_line_ends_agree. Qed.
+Print Assumptions C03_default_line_ends_agree.
